@@ -282,12 +282,13 @@ fn build(tier: Tier) -> Vec<Case> {
     }
     // ---- Unreal 2 (rules list and players list)
     for which in 0 .. 2 {
-        for k in 2 ..= kmax {
+        for (k, long) in (2 ..= kmax).map(|k| (k, false)).chain([(2usize, true), (3, true)]) {
             for (reorder, dup) in if k <= 4 { vec![(true, true)] } else { vec![(true, false), (false, true)] } {
                 v.push(Case {
                     label: format!(
-                        "unreal2 {} in {k} datagrams{}{}",
+                        "unreal2 {} in {k} datagrams{}{}{}",
                         ["rules", "players"][which],
+                        if long { " of 500-1000 bytes each" } else { "" },
                         if reorder { " all orders" } else { " in order" },
                         if dup { " + one duplicate" } else { "" }
                     ),
@@ -295,6 +296,19 @@ fn build(tier: Tier) -> Vec<Case> {
                     server: Arc::new(move || {
                         let mut st = gen_u2(&mut Chooser::new(&[]), &[12], &[12]);
                         st.num_players = 12;
+                        if long {
+                            // (values and names near the format's 127-character limit: whichever datagram arrives first is long)
+                            // (only in the list under test: the other one goes out in a single datagram of at most 1024 bytes)
+                            if which == 0 {
+                                for (i, r) in st.rules.iter_mut().enumerate() {
+                                    r.1 = UStr::plain(&format!("{}{i}", "v".repeat(120)));
+                                }
+                            } else {
+                                for (i, p) in st.players.iter_mut().enumerate() {
+                                    p.name = UStr::plain(&format!("{}{i}", "n".repeat(120)));
+                                }
+                            }
+                        }
                         Box::new(U2Server {
                             state: st,
                             rule_packets: if which == 0 { k } else { 1 },
